@@ -36,6 +36,7 @@ pub struct BuiltSlice {
     pub root: SliceRoot,
     pub payload: SlicePayload,
     pub size: u64,
+    pub data: Vec<u8>,
 }
 
 pub fn build_slice(rng: &mut Rng, slot: u64, sk: &SecretKey, spec: &SliceSpec) -> BuiltSlice {
@@ -49,18 +50,33 @@ pub fn build_slice(rng: &mut Rng, slot: u64, sk: &SecretKey, spec: &SliceSpec) -
     let mut shredder = RegularShredder::default();
     let shreds = shredder.shred(&slice, sk).expect("small slice").to_vec();
     let root = shreds[0].slice_root().clone();
-    let pb = wincode::serialize(&(parent, data)).unwrap();
+    let pb = wincode::serialize(&(parent, data.clone())).unwrap();
     let payload = SlicePayload::try_from(pb.as_slice()).expect("payload");
     // Shred wire layout: tag u32 | slot u64 | slice u64 | is_last u8 | shred_index u64 | data len u64 | ...
     let wb = wincode::serialize(shreds[0].as_shred()).unwrap();
     let size = u64::from_le_bytes(wb[29..37].try_into().unwrap());
-    BuiltSlice { spec: spec.clone(), shreds, root, payload, size }
+    BuiltSlice { spec: spec.clone(), shreds, root, payload, size, data }
+}
+
+/// The same slice content signed a second time with another last-slice flag (same slice root).
+pub fn resign_slice(b: &BuiltSlice, slot: u64, sk: &SecretKey, last: bool) -> BuiltSlice {
+    let mut spec = b.spec.clone();
+    spec.last = last;
+    let parent: Option<BlockId> = spec.parent.map(|p| (Slot::new(p.0), hash_of(p.1)));
+    let slice = Slice { slot: Slot::new(slot), slice_index: slice_index(spec.idx), is_last: last, parent: parent.clone(), data: b.data.clone() };
+    let mut shredder = RegularShredder::default();
+    let shreds = shredder.shred(&slice, sk).expect("small slice").to_vec();
+    let root = shreds[0].slice_root().clone();
+    assert!(root == b.root, "re-signed slice keeps its root");
+    let pb = wincode::serialize(&(parent, b.data.clone())).unwrap();
+    let payload = SlicePayload::try_from(pb.as_slice()).expect("payload");
+    BuiltSlice { spec, shreds, root, payload, size: b.size, data: b.data.clone() }
 }
 
 #[derive(Clone)]
 pub enum Deliver {
     Dissem(usize, usize, bool),      // (built slice, shred index, flip data/coding tag)
-    Repair(u64, usize, usize),       // (block key, built slice, shred index)
+    Repair(u64, usize, usize),       // (block key (0 = the block's true hash), built slice, shred index)
     Own(usize),
 }
 
@@ -133,8 +149,14 @@ pub fn run_case(id: u64, slot: u64, built: &[BuiltSlice], dels: &[Deliver], sk: 
                 let b = &built[*si];
                 let v = b.shreds[*k].clone();
                 kinds.push("repair".to_string());
-                let txt = format!("(BRepair {} (mkBS {} {} {} {} {} {}))", cf::n(*key), cf::n(b.spec.idx), cf::b(b.spec.last), cf::n(it.id(&b.root)), cf::n(*k as u64), cf::b(v.is_data()), cf::n(b.size));
-                let bsr = &mut bs; let rt2 = &rt; let h = hash_of(*key);
+                // key 0: requested under the true hash of the (first-listed) slices 0..=last
+                let mut roots: Vec<(u64, SliceRoot)> = Vec::new();
+                let last_idx = built.iter().filter(|x| x.spec.last).map(|x| x.spec.idx).min().unwrap_or(0);
+                for i in 0..=last_idx { if let Some(x) = built.iter().find(|x| x.spec.idx == i) { roots.push((it.id(&x.root), x.root.clone())); } }
+                let true_hash = DoubleMerkleTree::new(roots.iter().map(|x| &x.1)).get_root();
+                let (h, expected) = if *key == 0 { (true_hash, cf::list(&roots.iter().map(|x| cf::n(x.0)).collect::<Vec<_>>())) } else { (hash_of(*key), "[]".to_string()) };
+                let txt = format!("(BRepair {} {} (mkBS {} {} {} {} {} {}))", cf::n(*key), expected, cf::n(b.spec.idx), cf::b(b.spec.last), cf::n(it.id(&b.root)), cf::n(*k as u64), cf::b(v.is_data()), cf::n(b.size));
+                let bsr = &mut bs; let rt2 = &rt;
                 (txt, catch_unwind(AssertUnwindSafe(|| rt2.block_on(bsr.add_shred_from_repair(h, v)))))
             }
             Deliver::Own(si) => {
@@ -254,7 +276,7 @@ pub fn gen_c13(seed: u64, tier: Tier) -> CaseSet {
         if mode == 0 && shape.starts_with("honest") && shape != "honest-tag-flip" {
             dels = (0..built.len()).map(Deliver::Own).collect();
         } else if mode == 1 {
-            let key = rng.range(1, 3);
+            let key = rng.range(0, 2);
             let extra: Vec<Deliver> = dels.iter().filter_map(|d| if let Deliver::Dissem(si, k, false) = d { Some(Deliver::Repair(key, *si, *k)) } else { None }).collect();
             dels.extend(extra);
         }
